@@ -41,6 +41,16 @@ def _lk(x):
     return x
 
 
+def _hk(x):
+    """Shallow, process-independent image of a key: sub-terms are represented by their own hash (terms nested hundreds of
+    levels deep - long chains - must not recurse through repr)."""
+    if isinstance(x, Sym):
+        return ("\0h", x.h)
+    if isinstance(x, tuple):
+        return tuple(_hk(y) for y in x)
+    return x
+
+
 def _intern(cls, k):
     lk = _lk(k)
     with _L:
@@ -48,7 +58,7 @@ def _intern(cls, k):
         if s is None:
             s = object.__new__(cls)
             s.k = k
-            s.h = zlib.crc32(repr(k).encode())
+            s.h = zlib.crc32(repr(_hk(k)).encode())
             _serial[0] += 1
             s.i = _serial[0]
             _T[lk] = s
@@ -150,7 +160,10 @@ def same(a, b):
 
 
 def short(x, limit=300):
-    s = repr(x)
+    try:
+        s = repr(x)
+    except RecursionError:
+        s = "<term nested too deeply to print>"
     return s if len(s) <= limit else s[: limit - 3] + "..."
 
 
